@@ -1,6 +1,6 @@
 """C07 - first-fit is greedy-maximal."""
 from ..sym import sym_of
-from ..poly import fact_nf, poly, Poly, negate_cmp
+from ..poly import fact_nf, poly, Poly, negate_cmp, GT0, GE0, EQ0, NE0
 from ..describe import describe
 from .. import lemmas
 from .common import configs_for, has_feature
@@ -64,8 +64,8 @@ def _r1(prog, rep):
                 "one (the current line width)" % (len(lw_candidates), [describe(a, body)[:80] for a in lw_candidates]))
         return None
     lw = next(iter(lw_candidates))
-    A = ("gt0", pw + pW + pP - poly(lw))
-    B = ("gt0", pidx - ps)
+    A = GT0(pw + pW + pP - poly(lw))
+    B = GT0(pidx - ps)
     nA, nB = negate_cmp(A), negate_cmp(B)
     show = lambda p: p.show(lambda a: describe(a, body)[:60])
     for tr in m.trans:
